@@ -22,6 +22,76 @@ import (
 func init() {
 	register("C10", checkC10)
 	register("C10-race-child", c10RaceChild)
+	register("C10-cold-child", c10ColdChild)
+}
+
+// c10ColdChild makes the FIRST library calls of a fresh process concurrent: several goroutines, released together,
+// each start one Encode (no library call has been made before, so every lazily built table, every dispatch
+// initialisation and every pool is met for the first time by all of them at once). Each result must equal the result
+// of the same call made again afterwards, alone.
+func c10ColdChild(args []string) {
+	seed := int64(1)
+	if len(args) > 0 {
+		fmt.Sscan(args[0], &seed)
+	}
+	runtime.GOMAXPROCS(8)
+	rng := rand.New(rand.NewSource(seed))
+	type job struct {
+		name string
+		img  image.Image
+		o    webp.EncoderOptions
+	}
+	def := *webp.DefaultOptions()
+	withO := func(f func(o *webp.EncoderOptions)) webp.EncoderOptions { o := def; f(&o); return o }
+	pics := []image.Image{noiseNRGBA(rng, 96, 80, 0), gradientAlpha(rng, 64, 80), lossyPicture(rng, 120, 90, "smooth"), palettedNRGBA(rng, 40, 40, 9)}
+	var jobs []job
+	for k := 0; k < 10; k++ {
+		p := pics[(int(seed)+k)%len(pics)]
+		switch (int(seed) + k) % 5 {
+		case 0:
+			jobs = append(jobs, job{"lossy default", p, def})
+		case 1:
+			jobs = append(jobs, job{"lossy sharp-yuv m2", p, withO(func(o *webp.EncoderOptions) { o.UseSharpYUV, o.Method = true, 2 })})
+		case 2:
+			jobs = append(jobs, job{"lossless q60", p, withO(func(o *webp.EncoderOptions) { o.Lossless, o.Quality = true, 60 })})
+		case 3:
+			jobs = append(jobs, job{"lossy m0 dithered", p, withO(func(o *webp.EncoderOptions) { o.Method, o.Preprocessing, o.Quality = 0, 2, 40 })})
+		default:
+			jobs = append(jobs, job{"lossy m6 q90", p, withO(func(o *webp.EncoderOptions) { o.Method, o.Quality = 6, 90 })})
+		}
+	}
+	enc := func(j job) string {
+		o := j.o
+		var buf bytes.Buffer
+		if err := webp.Encode(&buf, j.img, &o); err != nil {
+			return "error: " + err.Error()
+		}
+		return fmt.Sprintf("%d bytes %x", buf.Len(), hashBytes(buf.Bytes()))
+	}
+	res := make([]string, len(jobs))
+	var ready, wg sync.WaitGroup
+	start := make(chan struct{})
+	for i := range jobs {
+		ready.Add(1)
+		wg.Add(1)
+		go func(i int) {
+			defer wg.Done()
+			ready.Done()
+			<-start
+			res[i] = enc(jobs[i])
+		}(i)
+	}
+	ready.Wait()
+	close(start)
+	wg.Wait()
+	bad := 0
+	for i, j := range jobs {
+		if again := enc(j); again != res[i] {
+			fmt.Printf("COLD-VIOLATION concurrent-first-use|%s: as one of the first concurrent calls of a fresh process Encode(%s) returned %s, the same call made alone afterwards returns %s\n", j.name, j.name, res[i], again)
+			bad++
+		}
+	}
+	fmt.Printf("COLD-DONE bad=%d\n", bad)
 }
 
 type rowTrace struct {
@@ -495,6 +565,45 @@ func checkC10(args []string) {
 		func(key, msg string) { run.Violate(key, msg+" (callers delayed after pool Put)", key) }, func(sig string) { run.Eval("prog-put:" + sig) })
 	verifhook.Stop()
 
+	// cold start: fresh processes whose first library calls are concurrent (plain build, and once in the -race build)
+	{
+		bins := []string{os.Args[0]}
+		nCold := run.Pick(8, 60)
+		if rb := os.Getenv("VCHECK_RACE_BIN"); rb != "" {
+			bins = append(bins, rb)
+		}
+		for bi, bin := range bins {
+			n := nCold
+			if bi == 1 {
+				n = run.Pick(2, 10)
+			}
+			for k := 0; k < n; k++ {
+				cmd := exec.Command(bin, "C10-cold-child", fmt.Sprint(run.Seed*100+int64(k)))
+				cmd.Env = append(os.Environ(), "GORACE=halt_on_error=1 exitcode=66")
+				out, err := cmd.CombinedOutput()
+				so := string(out)
+				run.Eval(fmt.Sprintf("cold-start|%d|%d", bi, k))
+				switch {
+				case strings.Contains(so, "WARNING: DATA RACE"):
+					i := strings.Index(so, "WARNING: DATA RACE")
+					rep := so[i:]
+					if len(rep) > 1500 {
+						rep = rep[:1500]
+					}
+					run.Violate("data-race|first-use", "race detector report while the first library calls of a fresh process run concurrently:\n"+rep, "C10-cold-child")
+				case strings.Contains(so, "COLD-VIOLATION"):
+					for _, ln := range strings.Split(so, "\n") {
+						if strings.HasPrefix(ln, "COLD-VIOLATION ") {
+							run.Violate(strings.SplitN(strings.TrimPrefix(ln, "COLD-VIOLATION "), ":", 2)[0], ln, "C10-cold-child")
+						}
+					}
+				case err != nil || !strings.Contains(so, "COLD-DONE"):
+					vx.Fatal2("cold-start child failed: %v\n%s", err, tailStr(so, 1200))
+				}
+			}
+		}
+		run.Cov["cold_start_processes"] = nCold
+	}
 	// the same programs in a -race build
 	if bin := os.Getenv("VCHECK_RACE_BIN"); bin != "" {
 		cmd := exec.Command(bin, "C10-race-child")
